@@ -237,26 +237,37 @@ def numpy_wave_data(kind, norb, nelec, params):
     return {k: (np.asarray(v) if not isinstance(v, list) else [np.asarray(x) for x in v]) for k, v in params.items()}
 
 
+def _amp(W, rows):
+    """||W|| * ||inv(W[rows])||: amplification of round-off in G = W inv(W[rows]) (>= 1; equals cond for a square W)."""
+    if W.shape[1] == 0:
+        return 1.0
+    B = W[rows, :]
+    sv = np.linalg.svd(B, compute_uv=False)
+    if sv[-1] == 0:
+        return float("inf")
+    return float(np.linalg.norm(W, 2) / sv[-1])
+
+
 def reference_block_cond(kind, norb, nelec, params, up, dn):
-    """Condition number of the block a Wick-type formula inverts (1.0 for kinds that invert nothing walker-specific beyond the overlap matrix)."""
+    """Round-off amplification of the block a Wick-type formula inverts (1.0 for kinds that invert only the overlap matrix)."""
     na, nb = nelec
     try:
         if kind in ("cisd", "cisd_faster", "CISD", "CISD_THC"):
-            return float(np.linalg.cond(up[:na, :]))
+            return _amp(up, list(range(na)))
         if kind in ("ucisd", "UCISD"):
             dnB = np.asarray(params["moB"]).T @ dn
-            return float(max(np.linalg.cond(up[:na, :]), np.linalg.cond(dnB[:nb, :]) if nb else 1.0))
+            return max(_amp(up, list(range(na))), _amp(dnB, list(range(nb))))
         if kind == "GCISD":
             W = np.zeros((2 * norb, na + nb), complex)
             W[:norb, :na] = up
             W[norb:, na:] = dn
             W = np.asarray(params["mo_coeff"]).T @ W
-            return float(np.linalg.cond(W[: na + nb, :]))
+            return _amp(W, list(range(na + nb)))
         if kind == "multislater":
             d0 = params["dets"][0]
             ia = [i for i, o in enumerate(d0[0]) if o]
             ib = [i for i, o in enumerate(d0[1]) if o]
-            return float(max(np.linalg.cond(up[ia, :]), np.linalg.cond(dn[ib, :]) if nb else 1.0))
+            return max(_amp(up, ia), _amp(dn, ib))
     except np.linalg.LinAlgError:
         return float("inf")
     return 1.0
